@@ -29,6 +29,7 @@ struct Tool {
   std::vector<std::string> args;      // without --nt
   std::vector<std::string> outputs;   // files to compare
   bool ordered;
+  double tol = 1e-9;  // relative tolerance for unordered tools ("agree to rounding")
 };
 struct Cfg { int tool; int nt; std::string extra; };
 
@@ -37,10 +38,18 @@ static std::vector<Tool> tools() {
       {"csg_stat", BUILD + "/votca/csg/src/tools/csg_stat", {"--top", "top.xml", "--trj", "trj.dump", "--options", "opt.xml"}, {"A-A.dist.new", "B-B.dist.new"}, true},
       {"csg_orientcorr", BUILD + "/votca/csg/src/csgapps/orientcorr/csg_orientcorr", {"--top", "top.xml", "--trj", "trj.dump", "--cutoff", "1.5", "--nbins", "6", "--nbmethod", "simple"},
        {"correlation.dat", "correlation_excl.dat"}, false},
+      // relative-entropy update on the repository's own SPC/E reference inputs (216 CG beads), 3 perturbed frames; the
+      // Newton step goes through a linear solve, so thread-dependent summation order is allowed 1e-6 relative
+      {"csg_reupdate", BUILD + "/votca/csg/src/tools/csg_reupdate", {"--options", "settings_re.xml", "--top", "topol_cg.xml", "--trj", "trj_re.dump", "--hessian-check", "no"},
+       {"CG-CG.param.new", "CG-CG.pot.new"}, false, 1e-6},
   };
 }
 
-static bool is_input(const std::string &n) { return n == "top.xml" || n == "opt.xml" || n == "trj.dump" || n[0] == '.'; }
+static bool is_input(const std::string &n) {
+  static const char *in[] = {"top.xml", "opt.xml", "trj.dump", "settings_re.xml", "topol_cg.xml", "trj_re.dump", "CG-CG.param.cur", "CG-CG.dist.new", "CG-CG.dist.tgt"};
+  for (const char *i : in) if (n == i) return true;
+  return n[0] == '.';
+}
 static std::map<std::string, std::string> slurp_outputs() {
   std::map<std::string, std::string> m;
   DIR *d = opendir(".");
@@ -91,6 +100,44 @@ static void write_inputs() {
   }
 }
 
+static void copy_file(const std::string &from, const std::string &to) {
+  std::ifstream i(from, std::ios::binary);
+  std::ofstream o(to, std::ios::binary);
+  o << i.rdbuf();
+}
+// csg_reupdate: the repository's SPC/E reference inputs and a 3-frame trajectory made of the reference frame with
+// small deterministic per-frame displacements (so that a dropped or doubled frame changes the result)
+static bool write_reupdate_inputs() {
+  const char *r = getenv("VERIF_REPO");
+  std::string ref = std::string(r ? r : "/repo") + "/csg/src/tools/references/spce/";
+  copy_file(ref + "settings_re.xml", "settings_re.xml");
+  copy_file(ref + "topol_cg.xml", "topol_cg.xml");
+  copy_file(ref + "CG-CG.param.in_re", "CG-CG.param.cur");
+  copy_file(ref + "CG-CG.rdf", "CG-CG.dist.new");
+  copy_file(ref + "CG-CG.imc.tgt", "CG-CG.dist.tgt");
+  std::ifstream in(ref + "frame_cg.dump");
+  if (!in) return false;
+  std::vector<std::string> lines;
+  std::string l;
+  while (std::getline(in, l)) lines.push_back(l);
+  std::ofstream out("trj_re.dump");
+  for (int fr = 0; fr < 3; fr++)
+    for (size_t i = 0; i < lines.size(); i++) {
+      if (i == 1) { out << fr << "\n"; continue; }
+      std::istringstream is(lines[i]);
+      std::vector<std::string> t;
+      std::string w;
+      while (is >> w) t.push_back(w);
+      if (i >= 9 && t.size() >= 5) {
+        char b[256];
+        snprintf(b, sizeof b, "%s %s %.6f %.6f %s", t[0].c_str(), t[1].c_str(), atof(t[2].c_str()) + 0.013 * fr * (double(i % 7) - 3),
+                 atof(t[3].c_str()) + 0.011 * fr * (double(i % 5) - 2), t[4].c_str());
+        out << b << "\n";
+      } else out << lines[i] << "\n";
+    }
+  return true;
+}
+
 static std::vector<std::string> split_ws(const std::string &s) {
   std::vector<std::string> v;
   std::istringstream is(s);
@@ -122,7 +169,7 @@ static void run_tool(const Tool &t, int nt, const std::string &extra, bool prelo
 }
 
 // numeric comparison to rounding (unordered mode): same shape, |a-b| <= 1e-9 * max(1,|a|)
-static bool close_tables(const std::string &a, const std::string &b) {
+static bool close_tables(const std::string &a, const std::string &b, double tol = 1e-9) {
   std::vector<std::string> ta = split_ws(a), tb = split_ws(b);
   if (ta.size() != tb.size()) return false;
   for (size_t i = 0; i < ta.size(); i++) {
@@ -131,7 +178,7 @@ static bool close_tables(const std::string &a, const std::string &b) {
     double x = strtod(ta[i].c_str(), &e1), y = strtod(tb[i].c_str(), &e2);
     if (*e1 || *e2) return false;
     if (std::isnan(x) && std::isnan(y)) continue;
-    if (!(std::fabs(x - y) <= 1e-9 * std::max(1.0, std::fabs(x)))) return false;
+    if (!(std::fabs(x - y) <= tol * std::max(1.0, std::fabs(x)))) return false;
   }
   return true;
 }
@@ -148,6 +195,7 @@ int main(int argc, char **argv) {
   std::string shmdir = mkdtemp(tmpl) ? tmpl : ".";
   std::string shmpath = shmdir + "/ctl.bin";
   write_inputs();
+  if (!write_reupdate_inputs()) { fprintf(stderr, "MACHINERY-ERROR cannot read the spce reference inputs for csg_reupdate\n"); return 2; }
   std::vector<Tool> T = tools();
   vsx::Explorer ex(shmpath);
   if (!ex.shm) { fprintf(stderr, "cannot map control block\n"); return 2; }
@@ -180,7 +228,7 @@ int main(int argc, char **argv) {
     for (auto &kv : ref) {
       if (!got.count(kv.first)) { bad(mode + "-output-file-missing", kv.first + " is written by the single-thread run but not by this one"); continue; }
       const std::string &g = got[kv.first];
-      if (t.ordered ? g != kv.second : !close_tables(g, kv.second))
+      if (t.ordered ? g != kv.second : !close_tables(g, kv.second, t.tol))
         bad(mode + (t.ordered ? "-output-not-byte-identical" : "-output-differs-beyond-rounding"),
             kv.first + " differs from the single-thread run (" + std::to_string(g.size()) + " vs " + std::to_string(kv.second.size()) + " bytes)");
       v.obs += std::to_string(bsx::fnv(g) % 100000) + " ";
@@ -227,6 +275,7 @@ int main(int argc, char **argv) {
     for (int nt : {2, 3})
       for (std::string extra : {"", "--nframes 2", "--first-frame 2", "--first-frame 2 --nframes 2", "--nframes 1", "--block-length 2", "--block-length 1 --nframes 3"}) {
         if (extra.find("block-length") != std::string::npos && tool != 0) continue;  // block output is a csg_stat feature
+        if (tool == 2 && !thorough && extra != "" && extra != "--nframes 2") continue;    // csg_reupdate runs are ~10x dearer
         if (!thorough && nt == 3 && extra != "" && extra != "--nframes 2" && extra != "--block-length 2") continue;
         cfgs.push_back({tool, nt, extra});
       }
